@@ -125,7 +125,9 @@ def h_push_badid(ctx, mods, shape):
     _judge(ctx, mods, st, w, o, 'push', 'InvalidResponseError', None)
 
 
-HARNESSES = {'pull_fail': h_pull_fail, 'push_fail': h_push_fail, 'pull_badid': h_pull_badid, 'push_badid': h_push_badid}
+from .c06 import h_async, h_threads
+
+HARNESSES = {'async': h_async, 'threads': h_threads, 'pull_fail': h_pull_fail, 'push_fail': h_push_fail, 'pull_badid': h_pull_badid, 'push_badid': h_push_badid}
 
 
 def shapes(tier, seed):
@@ -162,4 +164,9 @@ def shapes(tier, seed):
             out.append({'h': 'push_fail', 'impl': impl, 'at': ['done'], 'size': size, 'rlen': 2, 'cuts': 0, 'src': 'bytesio'})
         if not q:
             out.append({'h': 'push_fail', 'impl': impl, 'at': ['wrte', 2], 'size': 200000, 'rlen': 2, 'cuts': 0, 'reorder': True, 'maxdata': 65536})
+    # a rejected push / pull while another stream is being read concurrently: still the documented exception (K1 timeouts are C06's)
+    ss = ['streaming_shell', {'lens': [1]}]
+    out.append({'h': 'async', 'ops': [['push', {'size': 5000, 'expect_exc': 'PushFailedError'}], ss], 'fail': ['done'], 'ignore_k1': True, 'max_paths': 200000})
+    out.append({'h': 'async', 'ops': [['pull', {'recs': [2, 1], 'expect_exc': 'AdbCommandFailureException'}], ss], 'fail': ['recvdata', 1], 'ignore_k1': True, 'max_paths': 200000})
+    out.append({'h': 'threads', 'ops': [['push', {'size': 5000, 'expect_exc': 'PushFailedError'}], ss], 'fail': ['done'], 'preempt': 1, 'yields': False, 'ignore_k1': True, 'max_paths': 200000})
     return out
